@@ -1,6 +1,7 @@
 (* Executable checkers for the correspondence run of C03 (and the parser half of C04): evaluated with
    vm_compute on the cases the harness observed on the implementation.  Imports no proofs. *)
 From P2 Require Import Base.Prelude Lex.Token Syn.Ast Syn.Parse Syn.Render Syn.TableBuild.
+From P2 Require Lex.Tok.
 Local Open Scope N_scope.
 
 (* what the harness observed when it called Parser.Parse *)
@@ -28,7 +29,26 @@ Definition run_cfg (ops unary : list str) : pcfg := mkPcfg ops unary (Some run_n
    0 = rendering of a generated expression tree, certificate attached (fragment of C03)
    1 = single-token deletion/insertion of such a rendering (fragment tokens)
    2 = generated program of the full grammar (value-language table), expected to parse
-   3 = mutated program / token soup of the full grammar *)
+   3 = mutated program / token soup of the full grammar
+   COMFORT-MODE family (i_src = Some ...): the text was written with multiplication signs left out and lexemes set
+   tight and read by the real tokenizer in comfort mode; kind 0 when the harness' own bookkeeping says the text reads
+   back to the written tokens (then the tokens the parser received must be the EXPLICIT tokens of the attached tree and
+   the AST the tree's: the omitted signs are back, none was added), kind 1 otherwise (a call of a parenthesised or
+   numeric callee reads as a product).  For these cases the tokenizer model (Lex/Tok.v) is run on the text and must
+   deliver the tokens the real tokenizer delivered. *)
+(* the source text and the tokenizer configuration Parser.Parse used (hook VerifTokenizerConfig); texts of this family
+   are ASCII, so unicode.IsLetter / IsNumber are the ASCII classes *)
+Record c03_src := mkSrc {
+  cs_text : list N;
+  cs_ops : list str;
+  cs_textops : list (str * str);
+  cs_kws : list str;
+  cs_comments : bool;
+  cs_comfort : bool
+}.
+Definition src_tcfg (s : c03_src) : P2.Lex.Tok.tcfg :=
+  P2.Lex.Tok.mkCfg (cs_ops s) (cs_textops s) (cs_kws s) (cs_comments s) (cs_comfort s) P2.Lex.Tok.MSimple
+    (fun c => ((65 <=? c) && (c <=? 90)) || ((97 <=? c) && (c <=? 122))) (fun c => (48 <=? c) && (c <=? 57)).
 Record c03_in := mkIn {
   i_ops : list str;
   i_unary : list str;
@@ -39,8 +59,9 @@ Record c03_in := mkIn {
   i_actual : list str;              (* the binary operators the REAL parser holds, in its order (hook); for tables handed to
                                        parser2.Op directly this is i_ops, for tables built through the funcGen API
                                        (AddOp*, AddOpBehind) it is what GetParser passed on *)
-  i_hist : list (str * str)         (* the declarations (anchor, operator) the table was built with through the funcGen
+  i_hist : list (str * str);        (* the declarations (anchor, operator) the table was built with through the funcGen
                                        API, [] = the table was handed over as it is; i_ops is the PROMISED table *)
+  i_src : option c03_src            (* comfort-mode family: the text and the tokenizer configuration *)
 }.
 
 Definition c03_case := (N * c03_in * obs)%type.
@@ -56,8 +77,23 @@ Definition model_obs (i : c03_in) : option obs :=
   | POOF => None
   end.
 
+Fixpoint tks_eqb (a b : list tk) : bool :=
+  match a, b with
+  | [], [] => true
+  | x :: a', y :: b' => ttype_eqb (ktyp x) (ktyp y) && str_eqb (kimg x) (kimg y) && tks_eqb a' b'
+  | _, _ => false
+  end.
+
+(* the tokenizer model on the source text = the tokens the real tokenizer handed to the parser *)
+Definition src_ok (i : c03_in) : bool :=
+  match i_src i with
+  | None => true
+  | Some s => tks_eqb (map untok (P2.Lex.Tok.tokenize (src_tcfg s) (cs_text s))) (in_toks i)
+  end.
+
 (* model of the implementation = implementation *)
 Definition c03_im (c : c03_case) : bool :=
+  src_ok (snd (fst c)) &&
   match model_obs (snd (fst c)) with
   | Some o => obs_eqb o (snd c)
   | None => false
@@ -99,13 +135,6 @@ Fixpoint ktoks_eq (a b : list (N * str)) : bool :=
 
 Definition content_toks (ts : list (N * str)) : list (N * str) :=
   filter (fun t => match fst t with 0 | 12 | 13 | 14 => true | _ => false end) ts.
-
-Fixpoint tks_eqb (a b : list tk) : bool :=
-  match a, b with
-  | [], [] => true
-  | x :: a', y :: b' => ttype_eqb (ktyp x) (ktyp y) && str_eqb (kimg x) (kimg y) && tks_eqb a' b'
-  | _, _ => false
-  end.
 
 (* the implementation satisfies the specification side *)
 (* a table built through the generator API is the promised one, and the parser holds it *)
